@@ -400,6 +400,98 @@ def _r_subdir_dirlink(follow: str):
 
 # rule variants that are enumerated by a family of their own (family L), not in the single / pair / history families
 EXTRA_BUILDERS: T.Dict[str, T.Callable] = {'subdir_dirlink_' + f: _r_subdir_dirlink(f) for f in ('unset', 'true', 'false')}
+
+
+# ------------------------------------------------------------------------------------------------------------
+# The SHAPE of the name given to install_subdir() (family N).  install_subdir.yaml, example:
+#   install_subdir('foo',     install_dir : 'share', strip_directory : false) creates share/foo/bar/file1, share/foo/file2
+#   install_subdir('foo',     install_dir : 'share', strip_directory : true)  creates share/bar/file1, share/file2
+#   install_subdir('foo/bar', install_dir : 'share', strip_directory : false) creates share/bar/file1
+#   install_subdir('foo/bar', install_dir : 'share', strip_directory : true)  creates share/file1
+# i.e. the tree that is installed is the directory the name leads to (seen from the meson.build that holds the call);
+# without strip_directory (default false) it arrives as install_dir/<LAST component of the name>, with strip_directory its
+# contents arrive in install_dir itself.  exclude_files / exclude_directories: "Names are interpreted as paths relative to
+# the `subdir_name` location", i.e. to the directory that is installed - not to its parent, the meson.build or the source root.
+# A trailing '/' names the same directory (POSIX), its last component is the one before the slash.
+NAME_SHAPES = ('one', 'one/', 'two', 'two/', 'three', 'twin', 'odd-parent', 'nested-one', 'nested-two')
+NAME_STRIPS = ('unset', 'false', 'true')
+NAME_EXCLS = ('none', 'lists')
+NAME_DIRKINDS = ('rel', 'abs')
+MULTI_SHAPES = ('two', 'two/', 'three', 'twin', 'odd-parent', 'nested-two')
+
+
+def name_rule_id(shape: str, strip: str, excl: str, dirkind: str) -> str:
+    return 'subdir_name:%s:strip-%s:excl-%s:%s' % (shape, strip, excl, dirkind)
+
+
+def _r_subdir_name(shape: str, strip: str, excl: str, dirkind: str):
+    def build(s, m, ab):
+        r = Rule('subdir_name:%s:strip-%s' % (shape, strip), s, m)
+        last = nm(s, 'inner')
+        outer, mid = nm(s, 'outer'), nm(s, 'mid')
+        if shape in ('one', 'one/', 'nested-one'):
+            comps = [last]
+        elif shape in ('two', 'two/', 'nested-two'):
+            comps = [outer, last]
+        elif shape == 'three':
+            comps = [outer, mid, last]
+        elif shape == 'twin':
+            comps = [last, last]                       # the last component also occurs earlier in the name
+        elif shape == 'odd-parent':
+            comps = ['ou t é漢', last]           # space and non-ASCII in a component that is NOT the last one
+        else:
+            raise ValueError(shape)
+        name = '/'.join(comps)
+        declared = name + ('/' if shape.endswith('/') else '')
+        nest = nm(s, 'nest') if shape.startswith('nested') else ''
+        top = (nest + '/' if nest else '') + name       # the directory that is installed, relative to the source root
+        a, x, b, e, c = nm(s, 'na', '.txt'), nm(s, 'nx', '.sh'), nm(s, 'nb', '.txt'), nm(s, 'ne', '.txt'), nm(s, 'nc', '.txt')
+        dp = nm(s, 'deep')
+        tree_files = [a, x, 'sub/' + b, 'sub/' + e, 'sub/' + dp + '/' + c, last + '/' + a]
+        tree_dirs = ['sub', 'sub/' + dp, last]
+        for rel in tree_files:
+            r.files[top + '/' + rel] = ('%s of %s\n' % (rel.replace('/', ':'), shape), 0o750 if rel == x else 0o640)
+        for i in range(1, len(comps)):
+            # what lies beside the named directory (in each directory the name passes through) is not part of it
+            r.files[(nest + '/' if nest else '') + '/'.join(comps[:i]) + '/' + nm(s, 'beside%d' % i, '.txt')] = ('not installed\n', 0o644)
+        d = ('share/' if dirkind == 'rel' else ab + '/etc/') + nm(s, 'ndst')
+        kw = ''
+        if strip != 'unset':
+            kw += ', strip_directory: ' + strip
+        if excl == 'lists':
+            # relative to the installed directory: sub/<b> and <last>/<a> are files of the tree; <e> and <deep> exist only further
+            # down, and the name of the call itself prefixed to <a> leads nowhere: these exclude nothing
+            xf = ['sub/' + b, e, last + '/' + a]
+            xd = ['sub/' + dp, dp]
+            if len(comps) > 1:
+                xf.append(name + '/' + a)
+                xd.append(name)
+            kw += ', exclude_files: [%s], exclude_directories: [%s]' % (', '.join(q(v) for v in xf), ', '.join(q(v) for v in xd))
+            tree_files = [a, x, 'sub/' + e]
+            tree_dirs = ['sub', last]
+        call = 'install_subdir(%s, install_dir: %s%s%s)' % (q(declared), q(d), kw, _modekw(m))
+        if nest:
+            r.snippet = 'subdir(%s)' % q(nest)
+            r.files[nest + '/meson.build'] = (call + '\n', 0o644)
+        else:
+            r.snippet = call
+        if strip == 'true':
+            base = d
+        else:
+            base = d + '/' + last
+            r.entries.append(Entry((dirkind, base), 'dir', r))
+        for sub in tree_dirs:
+            r.entries.append(Entry((dirkind, base + '/' + sub), 'dir', r))
+        for rel in tree_files:
+            r.entries.append(Entry((dirkind, base + '/' + rel), 'file', r, src=('src', top + '/' + rel), mode=MODE_BITS[m]))
+        r.plan.append(('install_subdirs', ('src', top), (dirkind, base), None))
+        return r
+    return build
+
+
+NAME_BUILDERS: T.Dict[str, T.Callable] = {
+    name_rule_id(sh, st, ex, dk): _r_subdir_name(sh, st, ex, dk)
+    for sh in NAME_SHAPES for st in NAME_STRIPS for ex in NAME_EXCLS for dk in NAME_DIRKINDS}
 KIND_OF = {rid: rid.split('_')[0] for rid in RULE_IDS}
 
 
@@ -659,7 +751,7 @@ def make_project(rules: T.Sequence[T.Tuple[str, str, str]], absbase: str, with_s
             assert guess is not None
             out += guess_rules(rid.split(':', 1)[1], s, m, absbase, prefix, DIRSETS[guess['dirset']], guess.get('only'))
         else:
-            out.append((BUILDERS.get(rid) or EXTRA_BUILDERS[rid])(s, m, absbase))
+            out.append((BUILDERS.get(rid) or EXTRA_BUILDERS.get(rid) or NAME_BUILDERS[rid])(s, m, absbase))
     return Project(out, with_sub, sub_style)
 
 
